@@ -245,6 +245,7 @@ def run(chk):
     docs = []     # (path, stream, description, expect_reject, base index, queries)
     bases = []
     for wi in range(30 if quick else 300):
+        rng.seed("%d/c12-1/%d" % (chk.seed, wi))      # every world has its own stream: families do not disturb each other
         sph = rng.random() < 0.4
         wj, sph = any_world(rng, spherical=sph, lines=0.5, allow_mass_conserving=True)
         sanitize_numbers(wj)
